@@ -225,7 +225,7 @@ def run(chk: common.Check) -> None:
                     'callee, if/else, sum over a generator, lambda calling a function, while, a loop around `except … as` that leaves the final return without a line number); (S) random programs of the shared generator; (T) templates '
                     '(yield from, close, context managers, library callers without a trace function, finally, uncaught exceptions); (C) threads and asyncio '
                     'tasks with thread tracing on and off; (A) tasks with exceptions raised in callees; (M) module tracing on, descending into the '
-                    'standard library.  Policies: all-step, all-next, all-continue, all-return, all-until, seeded random mixes.  For every trace the Lean '
+                    'standard library; (O) threads the script does not join, calling functions of the script after the script\'s last statement.  Policies: all-step, all-next, all-continue, all-return, all-until, seeded random mixes.  For every trace the Lean '
                     'model (filter over the generated hook order + bdb/pdb stop logic), fed with the recorder stream of that entity and the commands '
                     'given, must predict exactly the real prompts (line, event, function of Pdb\'s current frame); plus the oracle from the '
                     'statement; plus the filter alone against the real pluggy hook on synthetic names.  Non-trivial: the trace has ≥ 2 prompts '
@@ -245,6 +245,13 @@ def run(chk: common.Check) -> None:
         extra.append(dict(sp, pdbrc=rcs[k % len(rcs)]))
     specs = specs + extra
     chk.cov.count('kinds', 'with-pdbrc-files', len(extra))
+    # threads the script does not join, calling functions of the script after the script's end (spread over the batches: each of
+    # these programs takes its pause twice, in the recorder's run and in the traced one)
+    own = _bdb.outliving_specs(random.Random(chk.seed + 505), chk.tier)
+    gap = max(1, len(specs) // (len(own) + 1))
+    for k, sp in enumerate(own):
+        specs.insert(min(len(specs), (k + 1) * gap + k), sp)
+    chk.cov.count('kinds', _bdb.OUTLIVING, len(own))
     results = _trace.run_specs(specs, chunk=24)
     oracle_fail: list = []
     known: list = []
@@ -309,6 +316,13 @@ def run(chk: common.Check) -> None:
         if not sp['trace_threads'] and item['info'][0] != 1:
             oracle_fail.append((sp, item, [f'thread tracing is off but trace {item["trace"]} belongs to thread number {item["info"][0]}'], None))
         msgs, sig = oracle(sp, stream, key, item['main_thread'], real, script, skip, item['trace'])
+        if sp['kind'] == _bdb.OUTLIVING and key.split('/')[0] != item['main_thread']:
+            chk.cov.count('kinds', 'outliving-thread-compared')
+            pol = sp['policy']['others'] if sp['policy']['kind'] == 'by_trace' else sp['policy']
+            miss = _bdb.unprompted_lines(stream, real, script, skip) if msgs and pol == {'kind': 'all', 'command': 'step'} else []
+            if miss:
+                msgs.insert(0, f'a thread the script starts and does not join ({key}), which calls functions of the script after the script\'s last '
+                               f'statement, executed lines {miss[:12]} of the script without being prompted there ({msgs[0]})')
         if msgs:
             (known if sig else oracle_fail).append((sp, item, msgs, sig))
         realp = [(p[0], p[1], p[3]) for p in real]
